@@ -16,6 +16,7 @@ import (
 	"strconv"
 	"strings"
 	"sync"
+	"sync/atomic"
 	"time"
 )
 
@@ -49,27 +50,27 @@ type arrival struct {
 
 type thread struct {
 	byEvent bool // the last release was for an event of the trace
-	last   int // index of the trace event this goroutine was last released for
-	lib    bool
-	id     int
-	grant  chan struct{}
-	at     *arrival // parked at this point (nil = running or finished)
-	done   bool
-	parked bool // parked in CondWait between park and wake
+	last    int  // index of the trace event this goroutine was last released for
+	lib     bool
+	id      int
+	grant   chan struct{}
+	at      *arrival // parked at this point (nil = running or finished)
+	done    bool
+	parked  bool // parked in CondWait between park and wake
 }
 
 var (
-	mu       sync.Mutex
-	active   bool // controlled mode
-	free     bool // free-run mode (after the trace)
-	threads  = map[int]*thread{}
-	gids     = map[uint64]int{} // goroutine id -> model thread
-	arrivals = make(chan arrival, 1024)
-	trace    []step
-	cursor   int
-	spawnQ   []int
-	nondets  map[string][]string
-	failed   []string
+	mu        sync.Mutex
+	active    bool // controlled mode
+	free      bool // free-run mode (after the trace)
+	threads   = map[int]*thread{}
+	gids      = map[uint64]int{} // goroutine id -> model thread
+	arrivals  = make(chan arrival, 1024)
+	trace     []step
+	cursor    int
+	spawnQ    []int
+	nondets   map[string][]string
+	failed    []string
 	assumeBad []string
 	atQuiesce []func()
 	atCut     []func()
@@ -108,7 +109,9 @@ func Point(pos, kind string) { point(pos, kind) }
 
 // point reports whether the goroutine was released for an event of the trace (false: pass-through or free run).
 func point(pos, kind string) bool {
-	if !active {
+	if !active || freeFlag.Load() {
+		// free run: no shared lock is touched here - a mutex of the controller would order the goroutines'
+		// plain accesses and hide exactly the races a race replay is meant to expose
 		return false
 	}
 	t := self()
@@ -139,8 +142,14 @@ func point(pos, kind string) bool {
 		// next < 0: the trace has nothing more for this goroutine - it parks right before the plain access
 		// (that is where the model left it) and is released together with everything else at the end
 	}
+	if dbg {
+		fmt.Println("VSCHED park", t.id, kind, pos)
+	}
 	arrivals <- arrival{tid: t.id, pos: pos, kind: kind}
 	<-t.grant
+	if dbg {
+		fmt.Println("VSCHED release", t.id, kind, pos)
+	}
 	mu.Lock()
 	ev := t.byEvent
 	t.byEvent = false
@@ -148,11 +157,11 @@ func point(pos, kind string) bool {
 	return ev
 }
 
-func Do0(pos, kind string, f func())                      { Point(pos, kind); f() }
-func Do1[A any](pos, kind string, f func(A), a A)         { Point(pos, kind); f(a) }
+func Do0(pos, kind string, f func())                         { Point(pos, kind); f() }
+func Do1[A any](pos, kind string, f func(A), a A)            { Point(pos, kind); f(a) }
 func Do2[A, B any](pos, kind string, f func(A, B), a A, b B) { Point(pos, kind); f(a, b) }
-func Call0[T any](pos, kind string, f func() T) T         { Point(pos, kind); return f() }
-func Call1[A, T any](pos, kind string, f func(A) T, a A) T { Point(pos, kind); return f(a) }
+func Call0[T any](pos, kind string, f func() T) T            { Point(pos, kind); return f() }
+func Call1[A, T any](pos, kind string, f func(A) T, a A) T   { Point(pos, kind); return f(a) }
 func Call2[A, B, T any](pos, kind string, f func(A, B) T, a A, b B) T {
 	Point(pos, kind)
 	return f(a, b)
@@ -213,6 +222,8 @@ func Spawn(pos string) int {
 }
 
 var libSpawn = map[int]bool{}
+var freeFlag atomic.Bool
+var dbg = os.Getenv("VERIF_DEBUG") != ""
 
 // LibGoroutinesAlive counts goroutines started by library code during the controlled phase that have not ended.
 func LibGoroutinesAlive() int {
@@ -314,19 +325,19 @@ func Assert(id string, c bool) {
 		fmt.Println("REPLAY-ASSERT-FAILED", id)
 	}
 }
-func Reach(id string)          {}
-func AtQuiescence(f func())    { mu.Lock(); atQuiesce = append(atQuiesce, f); mu.Unlock() }
-func AtAnyCut(f func())        { mu.Lock(); atCut = append(atCut, f); mu.Unlock() }
+func Reach(id string)       {}
+func AtQuiescence(f func()) { mu.Lock(); atQuiesce = append(atQuiesce, f); mu.Unlock() }
+func AtAnyCut(f func())     { mu.Lock(); atCut = append(atCut, f); mu.Unlock() }
 
 // ---- controller
 type result struct {
-	Failed    []string `json:"failed"`
-	Diverged  string   `json:"diverged,omitempty"`
-	Assume    []string `json:"assume_violations,omitempty"`
-	Steps     int      `json:"steps_replayed"`
-	Total     int      `json:"steps_total"`
-	Settled   bool     `json:"settled"`
-	Goroutines string  `json:"goroutines,omitempty"`
+	Failed     []string `json:"failed"`
+	Diverged   string   `json:"diverged,omitempty"`
+	Assume     []string `json:"assume_violations,omitempty"`
+	Steps      int      `json:"steps_replayed"`
+	Total      int      `json:"steps_total"`
+	Settled    bool     `json:"settled"`
+	Goroutines string   `json:"goroutines,omitempty"`
 }
 
 func gated(op string) bool { return op != "load" && op != "store" }
@@ -445,15 +456,32 @@ func Run(file string, entry func()) {
 		}
 	}
 	// free run: everything proceeds; a quiescent model state means nothing more happens
+	// goroutines parked right before a plain access (race replays) go first and get a head start, so that the
+	// detector sees both accesses before anything else (e.g. a panic further down the schedule) ends the process
 	mu.Lock()
 	free = true
+	freeFlag.Store(true)
+	var rest []*thread
 	for _, t := range threads {
+		if t.at != nil && (t.at.kind == "load" || t.at.kind == "store") {
+			select {
+			case t.grant <- struct{}{}:
+			default:
+			}
+		} else {
+			rest = append(rest, t)
+		}
+	}
+	mu.Unlock()
+	if len(rest) != len(threads) {
+		time.Sleep(50 * time.Millisecond)
+	}
+	for _, t := range rest {
 		select {
 		case t.grant <- struct{}{}:
 		default:
 		}
 	}
-	mu.Unlock()
 	go func() {
 		// late arrivals (a goroutine that tested the mode just before the switch) are released at once
 		for a := range arrivals {
